@@ -128,6 +128,20 @@ func (ex *Exec) strEq(a, b StrV) *Term {
 	if describe(a) == describe(b) && sameSnaps(a, b) {
 		return tTrue
 	}
+	// a slice of a bytes.Buffer read after the buffer was reset: its octets are now (a prefix
+	// of) whatever has been written since, so it equals x only if both what it held and what
+	// the buffer holds now equal x. (Used in assertions; the exact octets are a mix of the two
+	// when the lengths differ, and every counterexample is replayed natively.)
+	for i, s := range []StrV{a, b} {
+		if len(s.segs) == 1 && s.segs[0].op == "stale-after-reset" {
+			o := b
+			if i == 1 {
+				o = a
+			}
+			was, now := s.segs[0].args[0].(StrV), s.segs[0].args[1].(StrV)
+			return tAnd(ex.strEq(was, o), ex.strEq(now, o))
+		}
+	}
 	// congruence: same shape, opaque applications of the same function => equal iff
 	// the arguments are equal (the formatting functions involved are injective for
 	// arguments of the same type)
